@@ -488,6 +488,8 @@ class ParseCounter:
         self.nutts = nutts
         self.counters = [collections.Counter() for _ in range(nutts)]
         self.nparses = 0
+        # the counter is shared by the runs executed in parallel threads
+        self.lock = threading.Lock()
 
     def update(self, parse):
         if not len(parse) == self.nutts:
@@ -495,9 +497,10 @@ class ParseCounter:
                 'ParseCounter.update: len(parse) != nutts: {} != {}'
                 .format(len(parse), self.nutts))
 
-        self.nparses += 1
-        for i, utt in enumerate(parse):
-            self.counters[i][utt] += 1
+        with self.lock:
+            self.nparses += 1
+            for i, utt in enumerate(parse):
+                self.counters[i][utt] += 1
 
     def most_common(self):
         if self.nparses == 0:
